@@ -1,18 +1,10 @@
-//! Correspondence harness: runs the real discv5 code on op lines (`run`), generates op lines from
-//! one seed (`gen`).  One reply line per op; lines starting with `!MON` are implementation-side
-//! monitor failures (property violated on the implementation, independent of the model).
-mod eng_packet;
-mod eng_rpc;
-mod eng_kbucket;
-mod eng_query;
-mod eng_limiter;
-mod eng_ipvote;
-mod eng_lru;
-mod eng_talk;
-mod eng_service;
-mod eng_handler;
-mod rng;
-mod util;
+//! Correspondence harness library: shared pieces of the per-engine binaries `h_<engine>`
+//! (`src/bin/h_<engine>.rs` + `src/eng_<engine>.rs`).  `run` executes op lines on the real discv5
+//! code, `gen` generates op lines from one seed.  One reply line per op; lines starting with `!MON`
+//! are implementation-side monitor failures (property violated by the implementation itself,
+//! independent of the model).
+pub mod rng;
+pub mod util;
 
 use std::collections::BTreeMap;
 use std::io::{BufRead, Write};
@@ -39,48 +31,13 @@ pub trait Runner {
     fn step(&mut self, line: &str, out: &mut Vec<String>, stats: &mut Stats);
 }
 
-fn runner(engine: &str) -> Box<dyn Runner> {
-    match engine {
-        "packet" => Box::new(eng_packet::PacketRunner),
-        "rpc" => Box::new(eng_rpc::RpcRunner::default()),
-        "kbucket" => Box::new(eng_kbucket::KbucketRunner::default()),
-        "query" => Box::new(eng_query::QueryRunner::default()),
-        "limiter" => Box::new(eng_limiter::LimiterRunner::default()),
-        "ipvote" => Box::new(eng_ipvote::IpvoteRunner::default()),
-        "lru" => Box::new(eng_lru::LruRunner::default()),
-        "talk" => Box::new(eng_talk::TalkRunner::default()),
-        "service" => Box::new(eng_service::ServiceRunner::default()),
-        "handler" => Box::new(eng_handler::HandlerRunner::default()),
-        _ => {
-            eprintln!("unknown engine {engine}");
-            std::process::exit(2)
-        }
-    }
-}
+pub type GenFn = fn(&mut rng::Rng, &str, &str, &mut Stats) -> Vec<String>;
 
-fn gen_case(engine: &str, rng: &mut rng::Rng, tier: &str, profile: &str, stats: &mut Stats) -> Vec<String> {
-    match engine {
-        "packet" => eng_packet::gen_case(rng, tier, stats),
-        "rpc" => eng_rpc::gen_case(rng, tier, profile, stats),
-        "kbucket" => eng_kbucket::gen_case(rng, tier, profile, stats),
-        "query" => eng_query::gen_case(rng, tier, profile, stats),
-        "limiter" => eng_limiter::gen_case(rng, tier, profile, stats),
-        "ipvote" => eng_ipvote::gen_case(rng, tier, profile, stats),
-        "lru" => eng_lru::gen_case(rng, tier, profile, stats),
-        "talk" => eng_talk::gen_case(rng, tier, profile, stats),
-        "service" => eng_service::gen_case(rng, tier, profile, stats),
-        "handler" => eng_handler::gen_case(rng, tier, profile, stats),
-        _ => {
-            eprintln!("unknown engine {engine}");
-            std::process::exit(2)
-        }
-    }
-}
-
-fn main() {
+/// `h_<engine> gen ENGINE SEED FIRST N TIER PROFILE` | `h_<engine> run ENGINE`
+pub fn main_loop(mut r: Box<dyn Runner>, gen: GenFn) {
     let args: Vec<String> = std::env::args().collect();
     if args.len() < 3 {
-        eprintln!("usage: harness gen ENGINE SEED FIRST N TIER | harness run ENGINE");
+        eprintln!("usage: h_ENGINE gen ENGINE SEED FIRST N TIER PROFILE | h_ENGINE run ENGINE");
         std::process::exit(2);
     }
     let stdout = std::io::stdout();
@@ -88,7 +45,6 @@ fn main() {
     let mut stats = Stats::default();
     match args[1].as_str() {
         "gen" => {
-            let engine = &args[2];
             let seed: u64 = args[3].parse().expect("seed");
             let first: u64 = args[4].parse().expect("first");
             let n: u64 = args[5].parse().expect("n");
@@ -96,7 +52,7 @@ fn main() {
             let profile = args.get(7).map(|s| s.as_str()).unwrap_or("");
             for i in first..first + n {
                 let mut rng = rng::Rng::new(seed.wrapping_mul(0x2545_F491_4F6C_DD1D) ^ i.wrapping_mul(0x9E37_79B9));
-                let ops = gen_case(engine, &mut rng, tier, profile, &mut stats);
+                let ops = gen(&mut rng, tier, profile, &mut stats);
                 writeln!(w, "#case {} seed={}", i, seed).unwrap();
                 for o in ops {
                     writeln!(w, "{}", o).unwrap();
@@ -105,7 +61,6 @@ fn main() {
         }
         "run" => {
             std::panic::set_hook(Box::new(|_| {})); // panics are caught and reported as results
-            let mut r = runner(&args[2]);
             let stdin = std::io::stdin();
             let mut out = Vec::new();
             for line in stdin.lock().lines() {
